@@ -29,6 +29,12 @@ type Facts struct {
 	Bools  map[string]bool     `json:"bools"`
 	Strs   map[string][]string `json:"strs"`    // name lists
 	Miss   []string            `json:"missing"` // anchors not found
+	// C03 panic-site inventory (panicsites.go): JSON only, steers oracle c03
+	PanicSites       []PanicSite    `json:"panicSites"`
+	PanicSiteCounts  map[string]int `json:"panicSiteCounts"`
+	PanicRootsMissed []string       `json:"panicRootsMissing,omitempty"`
+	PanicSitesError  string         `json:"panicSitesError,omitempty"`
+	V4ValTypes       []string       `json:"v4valTypes,omitempty"` // DHCPv4 value types with a FromBytes method
 	MissT  map[string]string   `json:"missing_types,omitempty"` // Lean type of a missing fact when not Nat
 	Prov   *provenanceOut      `json:"provenance,omitempty"`
 	Read   *ReadFacts          `json:"readOnly,omitempty"` // C20 effect table with evidence (effects.go)
@@ -269,7 +275,7 @@ var loadedPkgs []*packages.Package
 
 func main() {
 	repo := "/repo"
-	outLean, outJSON := "", ""
+	outLean, outJSON, panicBaseline := "", "", ""
 	for i := 1; i < len(os.Args); i++ {
 		switch os.Args[i] {
 		case "-repo":
@@ -281,11 +287,22 @@ func main() {
 		case "-json":
 			i++
 			outJSON = os.Args[i]
+		case "-panicbaseline":
+			i++
+			panicBaseline = os.Args[i]
 		}
 	}
 	pkgs := load(repo, "./dhcpv4", "./dhcpv6", "./rfc1035label", "./iana", "./dhcpv4/nclient4", "./dhcpv6/nclient6", "./dhcpv4/server4", "./dhcpv6/server6", uioPath)
 	extractV4(pkgs[mod+"/dhcpv4"])
 	extractMore(pkgs)
+	if outJSON != "" || panicBaseline != "" {
+		sites, counts, err := extractPanicSites(repo, panicBaseline)
+		if err != nil {
+			// the inventory only steers a search: its failure is recorded, not fatal
+			facts.PanicSitesError = err.Error()
+		}
+		facts.PanicSites, facts.PanicSiteCounts = sites, counts
+	}
 	for _, f := range extraExtractors {
 		f(pkgs)
 	}
